@@ -1,6 +1,6 @@
 SPECIFICATION Spec
 CONSTANTS
-  MaxMsgs = 5
+  MaxMsgs = 4
   DevBufferedRelease = FALSE
 CONSTRAINT Bound
 INVARIANTS OnlyOwnersSignals AllOwnersSignals TrackedIsOwner
